@@ -183,6 +183,8 @@ def run(run, model):
     run.do(invariant_init, model)
     run.do(c08.define_tables, model, "C19.snapshot-order")
     run.do(c09.validate_tables, model, "C19.error-kind")
+    from . import select
+    run.do(select.introspect_rules, model, "C19.invariant-args-source")
     run.minimum("C19.reserved-def", 5)
     run.minimum("C19.reserved-call", 6)
     run.minimum("C19.result-old", 10)
